@@ -1449,6 +1449,27 @@ class EArray(Engine):
         if self.dt.cls == 'other' or self.dt.key[0] in '<>=@':
             return {'skip': 'not a numeric dtype'}
         k = ev.get('scale') if ev.get('scale') in (2, 4, 0.5, -1, 1000) else 2
+        if what == 'auto_ctor':
+            # Array(Dtype(..., scale='auto'), values): the same values from a list and from a one-shot producer build the same Array
+            if self.dt.cls != 'float':
+                return {'skip': "'auto' scales exist for float formats only"}
+            st, da = call(B.Dtype, self.dt.key, scale='auto')
+            vals = [v for v in self.vals() if isinstance(v, float) and v == v and abs(v) != float('inf')][:6]
+            if st != 'ok' or not vals:
+                return {'skip': 'no auto-scaled Dtype / no finite values'}
+            ra = call(B.Array, da, list(vals))
+            rb = call(B.Array, da, (v for v in vals))
+            rc = call(B.Array, da, iter(vals))
+
+            def canon_a(r):
+                st_, v = r
+                return ('exc', exc_name(v)) if st_ != 'ok' else ('ok', str(v.dtype), repr(getattr(v.dtype, 'scale', None)), kernel.safe_bin(v.data))
+            if ra[0] == 'ok':
+                self.probe('scaled:auto-ctor')
+            if not (canon_a(ra) == canon_a(rb) == canon_a(rc)):
+                self.fail('one-shot-initializer-builds-another-array', from_list=canon_a(ra)[:3] + (len(canon_a(ra)[-1]),), from_generator=canon_a(rb)[:3] + (len(canon_a(rb)[-1]),),
+                          from_iterator=canon_a(rc)[:3] + (len(canon_a(rc)[-1]),), values=kernel.canon(vals))
+            return {'st': ra[0]}
         if what == 'pop_undecodable':
             if self.dt.cls != 'float':
                 return {'skip': 'undecodable items need a float dtype'}
@@ -2113,7 +2134,7 @@ class EArray(Engine):
     def g_scaled(self, g):
         if self.dt.cls == 'other' or self.dt.key[0] in '<>=@':
             return None
-        return {'k': 'scaled', 'what': g.pick(['read', 'read', 'pop', 'pop_undecodable', 'op_history']), 'scale': g.pick([2, 4, 0.5, -1, 1000]),
+        return {'k': 'scaled', 'what': g.pick(['read', 'read', 'pop', 'pop_undecodable', 'op_history', 'auto_ctor']), 'scale': g.pick([2, 4, 0.5, -1, 1000]),
                 'scale2': g.pick([8, 0.25, 3]), 'i': g.int(-2, 6), 'op': g.pick(['add', 'sub', 'mul'])}
 
     def g_poke_src(self, g):
